@@ -21,7 +21,7 @@ use crate::Args;
 use super::c05;
 
 use rs_matter::acl::{Accessor, AccessorSubjects};
-use rs_matter::dm::{Access, Attribute, Cluster, Command, DeviceType, Endpoint, Node, Quality};
+use rs_matter::dm::{Access, Attribute, Cluster, Command, DeviceType, Endpoint, Metadata, Node, Quality};
 use rs_matter::im::{expand_invoke, expand_read, expand_write, IMStatusCode, InvReq, ReadReq, ReportDataReq, WriteReq};
 use rs_matter::tlv::TLVElement;
 use rs_matter::Matter;
@@ -156,7 +156,25 @@ fn status_name(s: IMStatusCode) -> String {
 
 const STEP_CAP: usize = 20000;
 
-fn run_x(matter: &Matter<'_>, node: &'static Node<'static>, w: &[&str], out: &mut Out) -> String {
+/// `Metadata` whose node composition is replaced between the expander's `next` calls: the i-th
+/// `access` sees `nodes[min(i, last)]` (`PathExpanderIterator::next` calls `access` once per call).
+struct SwapMeta {
+    nodes: Vec<&'static Node<'static>>,
+    calls: std::cell::Cell<usize>,
+}
+
+impl Metadata for SwapMeta {
+    fn access<F, R>(&self, f: F) -> R
+    where
+        F: FnOnce(&Node<'_>) -> R,
+    {
+        let i = self.calls.get();
+        self.calls.set(i + 1);
+        f(self.nodes[i.min(self.nodes.len() - 1)])
+    }
+}
+
+fn run_x<M: Metadata + Copy>(matter: &Matter<'_>, node: M, w: &[&str], out: &mut Out) -> String {
     let kind = w[1];
     let fab: u8 = w[2].parse().unwrap_or(0);
     let mode = c05::mode_of(w[3]);
@@ -293,6 +311,26 @@ fn run_case(matter: &Matter<'_>, out: &mut Out, case: &Case) {
                 }
                 None => out.op(op, "badnode"),
             },
+            // sw <same 9 fields as x> <spec0> <spec1> ..: call i of the expander sees node spec_min(i,last)
+            Some("sw") if w.len() >= 11 => {
+                let nodes: Option<Vec<&'static Node<'static>>> = w[10..].iter().map(|s| parse_node(s)).collect();
+                match nodes {
+                    None => out.op(op, "badnode"),
+                    Some(nodes) => {
+                        let meta = SwapMeta { nodes, calls: std::cell::Cell::new(0) };
+                        let o = run_x(matter, &meta, &w[..10], out);
+                        out.stat("swap_requests", 1);
+                        out.stat(&format!("swap_calls_{}", meta.calls.get().min(9)), 1);
+                        if o.contains("ok ") {
+                            kinds.insert("item");
+                        }
+                        if o.contains("Unsupported") || o.contains("NeedsTimed") {
+                            kinds.insert("status");
+                        }
+                        out.op(op, &o);
+                    }
+                }
+            }
             Some("x") if w.len() == 10 => {
                 let o = run_x(matter, node, &w, out);
                 if o.contains("ok ") {
@@ -320,8 +358,11 @@ const CLUSTERS: [u32; 4] = [6, 8, 29, 31];
 const DEV_TYPES: [u32; 3] = [22, 256, 257];
 const GROUP_IDS: [u64; 3] = [1, 2, 3];
 
+#[derive(Clone)]
 struct GLeaf { id: u32, access: u16, array: bool }
+#[derive(Clone)]
 struct GCluster { id: u32, fm: u32, attrs: Vec<GLeaf>, cmds: Vec<GLeaf> }
+#[derive(Clone)]
 struct GEndpoint { id: u16, dts: Vec<u32>, clusters: Vec<GCluster> }
 
 fn attr_access_pool() -> Vec<u16> {
@@ -340,8 +381,12 @@ fn cmd_access_pool() -> Vec<u16> {
 }
 
 fn gen_node(r: &mut Rng, out: &mut Out, wf: bool) -> Vec<GEndpoint> {
+    gen_node_n(r, out, wf, None)
+}
+
+fn gen_node_n(r: &mut Rng, out: &mut Out, wf: bool, force_ne: Option<usize>) -> Vec<GEndpoint> {
     let mut eps: Vec<GEndpoint> = Vec::new();
-    let ne = *r.pick(&[0usize, 1, 2, 2, 3, 3, 4]);
+    let ne = force_ne.unwrap_or_else(|| *r.pick(&[0usize, 1, 2, 2, 3, 3, 4]));
     let mut ids: Vec<u16> = ENDPOINTS.to_vec();
     // choose `ne` ids, sorted
     while ids.len() > ne {
@@ -554,6 +599,73 @@ fn gen_case(r: &mut Rng, out: &mut Out, nx: usize) -> Vec<String> {
             if excl.is_empty() { "-".to_string() } else { excl.join(",") },
             paths.join(";")
         ));
+    }
+    // requests answered while the node composition is replaced between the expander's calls
+    if r.chance(1, 2) {
+        let pool_n = *r.pick(&[2usize, 3, 4, 5]);
+        let pool = gen_node_n(r, out, true, Some(pool_n));
+        let nsw = r.range(1, 3);
+        for _ in 0..nsw {
+            let kind = *r.pick(&["r", "r", "r", "w", "i"]);
+            let (fab, mode, id): (u64, &str, u64) = match r.below(8) {
+                0..=2 => (0, "p", 1),
+                3 => (r.range(1, nf), "p", 1),
+                4 => (r.range(1, nf), "g", *r.pick(&GROUP_IDS)),
+                _ => (r.range(1, nf), "c", *r.pick(&[1u64, 1, 2, 112233])),
+            };
+            let timed = if r.chance(1, 2) { 1 } else { 0 };
+            // mostly one wildcard path (the shape `node_swap_safe` speaks about); sometimes several
+            let mut cl = *r.pick(&CLUSTERS);
+            let mut lf = r.below(4);
+            // aim at something the pool has
+            if r.chance(4, 5) {
+                let e = &pool[r.below(pool.len() as u64) as usize];
+                if !e.clusters.is_empty() {
+                    let c = &e.clusters[r.below(e.clusters.len() as u64) as usize];
+                    cl = c.id;
+                    let leaves = if kind == "i" { &c.cmds } else { &c.attrs };
+                    if !leaves.is_empty() {
+                        lf = leaves[r.below(leaves.len() as u64) as usize].id as u64;
+                    }
+                }
+            }
+            let one = if kind == "r" {
+                match r.below(8) {
+                    0..=3 => "*/*/*".to_string(),
+                    4 => format!("*/{}/*", cl),
+                    5 => format!("*/{}/{}", cl, lf),
+                    6 => format!("{}/*/*", r.pick(&ENDPOINTS)),
+                    _ => format!("*/*/{}", lf),
+                }
+            } else {
+                format!("*/{}/{}", cl, lf)
+            };
+            let paths = if r.chance(1, 5) {
+                out.stat("swap_multi_path", 1);
+                format!("{};{}/{}/{};{}", one, r.pick(&ENDPOINTS), cl, lf, one)
+            } else {
+                one
+            };
+            // compositions: subsets of the pool (an endpoint id keeps its shape); 1 in 6 schedules
+            // also changes the shape of an endpoint (violates the documented invariant: model-vs-code only)
+            let nn = r.range(2, 6);
+            let unstable = r.chance(1, 6);
+            let mut specs: Vec<String> = Vec::new();
+            for k in 0..nn {
+                let mut comp: Vec<GEndpoint> = pool.iter().filter(|_| r.chance(2, 3)).cloned().collect();
+                if unstable && k > 0 && !comp.is_empty() {
+                    let i = r.below(comp.len() as u64) as usize;
+                    if !comp[i].clusters.is_empty() && r.chance(1, 2) {
+                        comp[i].clusters.remove(0);
+                    } else {
+                        comp[i].clusters.push(GCluster { id: 40, fm: 0xFFFF_FFFF, attrs: vec![GLeaf { id: 0, access: Access::RV.bits(), array: false }], cmds: vec![GLeaf { id: 0, access: Access::WO.bits(), array: false }] });
+                    }
+                }
+                specs.push(node_spec(&comp));
+            }
+            out.stat(if unstable { "swap_shape_changed" } else { "swap_stable" }, 1);
+            ops.push(format!("sw {} {} {} 0 {} - {} - {} {}", kind, fab, mode, id, timed, paths, specs.join(" ")));
+        }
     }
     ops
 }
